@@ -5,6 +5,7 @@ from http.client import HTTPException
 from urllib.request import urlopen, Request as HttpRequest
 
 from .output import UIError
+from .ui import escape_braces
 
 try:
     from datetime import datetime, UTC
@@ -129,7 +130,7 @@ class ReBenchDB(object):
             except TypeError as te:
                 # can't handle this, just abort
                 self.ui.error("{ind}Error: Reporting to ReBenchDB failed.\n"
-                               + "{ind}{ind}" + str(te) + "\n")
+                               + "{ind}{ind}" + escape_braces(str(te)) + "\n")
                 return False, None
             except (IOError, HTTPException) as error:
                 # pylint: disable-next=no-member
@@ -140,11 +141,11 @@ class ReBenchDB(object):
                     self.ui.warning(
                         "ReBenchDB: had issue reporting data. Trying again after "
                         + str(wait_sec) + "seconds.\n"
-                        + "{ind}{ind}" + str(error) + "\n")
+                        + "{ind}{ind}" + escape_braces(str(error)) + "\n")
                     attempts -= 1
                     sleep(wait_sec)
                     wait_sec *= 2
                 else:
                     self.ui.error("{ind}Error: Reporting to ReBenchDB failed.\n"
-                                   + "{ind}{ind}" + str(error) + "\n")
+                                   + "{ind}{ind}" + escape_braces(str(error)) + "\n")
                     return False, None
